@@ -464,9 +464,69 @@ def cases_c10(ctx, boost):
     return out
 
 
+# =============================================================================== C14
+def cases_c14(ctx, boost):
+    import itertools
+    from pymodel import head as chead, ctext, cint
+    out = []
+    cfg = "000"
+    g = ctx.gen(cfg)
+    rng = g.rng
+    refs = {key: path for path, key, _ in g.all_refs()}
+    fkey = [k for k in refs if k.endswith("FilteredPublicKeyCredentialParameters")][0]
+    akey = [k for k in refs if k.endswith("AttestationFormatsPreference")][0]
+
+    def entry(alg, ty, order=0, extra=False):
+        ents = [(ctext("alg"), cint(alg)), (ctext("type"), ctext(ty))]
+        if order:
+            ents.reverse()
+        if extra:
+            ents.insert(rng.randrange(3), (ctext("transports"), chead(4, 0)))
+        return chead(5, len(ents)) + b"".join(k + v for k, v in ents)
+
+    alphabet = [(-7, "public-key"), (-8, "public-key"), (-257, "public-key"), (-7, "webauthn.create")]
+    maxlen = 6 if ctx.tier == "thorough" else 4
+    for n in range(maxlen + 1):
+        for combo in itertools.product(alphabet, repeat=n):
+            b = chead(4, n) + b"".join(entry(a, t) for a, t in combo)
+            out.append(Case("dec", cfg, f"dec {cfg} {fkey} {b.hex()}", f"dec {cfg} {refs[fkey]} {b.hex()}", tag=f"params len {n}"))
+    algs = [0, 1, -1, -7, -8, -9, -35, -36, -37, -257, -65535, 2 ** 31 - 1, -2 ** 31, 2 ** 31, -2 ** 31 - 1, 2 ** 32 - 7, -7 - 2 ** 32]
+    for a in algs:
+        for ty in ("public-key", "public-kez", "", "p" * 32, "p" * 33, "Public-Key"):
+            b = chead(4, 2) + entry(-8, "public-key") + entry(a, ty, order=rng.randrange(2), extra=rng.random() < 0.3)
+            out.append(Case("dec", cfg, f"dec {cfg} {fkey} {b.hex()}", f"dec {cfg} {refs[fkey]} {b.hex()}", tag="params alg/type range"))
+    for n in (7, 12, 13, 16, 17, 23, 24, 25, 64):
+        for _ in range(2 * boost):
+            items = [rng.choice(alphabet + [(rng.randrange(-70000, 70000), "public-key")]) for _ in range(n)]
+            b = chead(4, n) + b"".join(entry(a, t, rng.randrange(2)) for a, t in items)
+            out.append(Case("dec", cfg, f"dec {cfg} {fkey} {b.hex()}", f"dec {cfg} {refs[fkey]} {b.hex()}", tag=f"params long {n}"))
+    fmts = ["packed", "none", "tpm", "android-key"]
+    for n in range(6):
+        for combo in itertools.product(fmts, repeat=n):
+            b = chead(4, n) + b"".join(ctext(f) for f in combo)
+            out.append(Case("dec", cfg, f"dec {cfg} {akey} {b.hex()}", f"dec {cfg} {refs[akey]} {b.hex()}", tag=f"formats len {n}"))
+    for n in (6, 10, 30):
+        b = chead(4, n) + b"".join(ctext(rng.choice(fmts + ["Packed", "", "x" * 40])) for _ in range(n))
+        out.append(Case("dec", cfg, f"dec {cfg} {akey} {b.hex()}", f"dec {cfg} {refs[akey]} {b.hex()}", tag="formats long"))
+    return out
+
+
 NOT_YET = {}
 
 PROPS = {
+    "C14": {"ns": "C14", "cases": cases_c14,
+            "level_text": "Proof. The two filtering visit_seq loops are modelled as folds with push(..).ok() semantics "
+                          "(filterFold, attFmtLoop/attFmtFold); list inductions show, for lists of any length, that the result "
+                          "is the first two matching entries in order (params_filtered, formats_decode) and that the flag is "
+                          "'some entry was unknown'; no error outcome exists in the filter step, so unknown algorithms / types / "
+                          "formats can never reject the request. Obligations: the filter parameters regenerated from the source "
+                          "(KNOWN_ALGS, the \"public-key\" literals, capacities, format table) equal the specification's at all "
+                          "4 sites in all 8 configurations. Correspondence: all lists of length <= 4 (quick) / 6 (thorough) over "
+                          "the 4-letter alphabet, long lists to 64, algorithms across and beyond the i32 range, type strings to "
+                          "33 bytes, all format lists of length <= 5.",
+            "rule": "exhaustive short lists over {ES256, EdDSA, unknown alg, unknown type} and {packed, none, tpm, other}; long "
+                    "random lists; alg / type boundary values",
+            "assumptions": []},
     "C10": {"ns": "C10", "cases": cases_c10,
             "level_text": "Proof. The dispatcher arms (request variant -> trait method(s) invoked, payload passed, response "
                           "variant named, `?` propagation) are extracted from call_ctap2 / call_ctap1 on every run and "
